@@ -147,7 +147,33 @@ def canonical_spellings(tree):
             return node
     tree = T().visit(tree)
     _canonical_module_aliases(tree)
+    _drop_empty_finally(tree)
     return tree
+
+
+def _drop_empty_finally(tree):
+    """`try: <body> finally: pass` (no handlers, no else, a finally that does nothing) is <body>"""
+    def trivial(st):
+        return isinstance(st, ast.Pass) or (isinstance(st, ast.Expr) and isinstance(st.value, ast.Constant))
+    for n in ast.walk(tree):
+        for field in ("body", "orelse", "finalbody"):
+            sub = getattr(n, field, None)
+            if isinstance(sub, list) and sub and isinstance(sub[0], ast.stmt):
+                i = 0
+                while i < len(sub):
+                    st = sub[i]
+                    if isinstance(st, ast.Try) and not st.handlers and not st.orelse and st.finalbody and all(trivial(x) for x in st.finalbody):
+                        sub[i:i + 1] = st.body
+                        continue
+                    i += 1
+        if isinstance(n, ast.ExceptHandler):
+            i = 0
+            while i < len(n.body):
+                st = n.body[i]
+                if isinstance(st, ast.Try) and not st.handlers and not st.orelse and st.finalbody and all(trivial(x) for x in st.finalbody):
+                    n.body[i:i + 1] = st.body
+                    continue
+                i += 1
 
 
 _NEGATED_MEMBERSHIP = {ast.In: ast.NotIn, ast.NotIn: ast.In, ast.Is: ast.IsNot, ast.IsNot: ast.Is}
